@@ -5,7 +5,8 @@ namespace Fastrace
 
 /-- operations that neither push nor pop a thread-local guard -/
 def isPlain : Op → Bool
-  | .scope _ | .localEnter _ | .collectorStart | .close | .collect _ | .exit | .adPoll _ _ | .adEnd _ _ => false
+  | .scope _ | .localEnter _ | .collectorStart | .close | .collect _ | .exit | .adPoll _ _ | .adEnd _ _
+  | .closeUnder | .collectUnder _ => false
   | _ => true
 
 theorem Stack.addEvent_ext (st : Stack) (c : Ctr) (n : String) (p : Option Props) :
@@ -104,6 +105,8 @@ theorem exec_plain_pres (s : Sys) (t : Nat) (op : Op) (hp : isPlain op = true) (
   | exit => simp [isPlain] at hp
   | adPoll a c => simp [isPlain] at hp
   | adEnd a r => simp [isPlain] at hp
+  | closeUnder => simp [isPlain] at hp
+  | collectUnder x => simp [isPlain] at hp
   | adNew a kind arg =>
     simp only [exec]
     cases kind with
